@@ -104,4 +104,15 @@ var specs = map[string]*propSpec{
 		Floor:  map[string]int{"quick": 10000, "thorough": 20000},
 		Phases: mainPhase,
 	},
+	"C03": {
+		ID: "C03",
+		Rule: "case idx -> abstract program (1..12 instructions over all opcodes of the dialect, optional modifier/modes/second operand, operands mixing literals, labels (backward, forward, several per line), EQU chains (forward use), predefined constants, small arithmetic; ORG or END argument, never both; optional ;name/;author/;strategy) " +
+			"under a random valid configuration (core sizes from 3 to 2^34 incl. small primes; both dialects; ICWS94 and NOP94 modes). Its meaning is computed by construction (ref/asm: label table, textual EQU substitution, own big.Int precedence-climbing evaluator, dialect default tables, lone-operand rule). " +
+			"Each program is rendered 3 (quick) / 4 (thorough) ways varying mnemonic case, blanks/tabs, blank and comment lines, trailing comments, colons, labels on their own lines, alpha-renamed labels, EQU placement, explicit default modes, missing final newline and text after END; every rendering is assembled by the real CompileWarrior and compared with the meaning (code, entry point, metadata). " +
+			"non-trivial = program using labels and EQUs, or relying on a defaulted modifier; distinct by (dialect, feature set, defaulted?, opcode classes, length/3)",
+		Assumptions: append([]string{
+			"meaning follows DESIGN.md section 2 (pMARS NOP.B default, '88 DAT operands default to #, README lone-operand rule); names that collide with mnemonics/pseudo-ops/predefined constants and labels inside FOR bodies are not generated; values leaving the 32-bit range are skipped"}, commonAssumptions...),
+		Floor:  map[string]int{"quick": 300, "thorough": 1500},
+		Phases: mainPhase,
+	},
 }
